@@ -138,7 +138,7 @@ static bool g_start_parking[VF_N];
 static uint32_t g_epoch0[VF_N];
 static uint32_t g_exited;                  // workers that left their loop
 
-static inline void k_teardown();
+VF_NOINLINE static void k_teardown();
 // scenario end: the step that makes "all submitted tasks started" true performs the harness teardown
 // (think of the last task telling its owner to shut the pool down)
 static inline void k_task_started(bool& last) {   // `last`: the caller performs the teardown (one copy of its code)
@@ -227,16 +227,25 @@ static inline void k_hint_store(bool v) {
   *reinterpret_cast<bool*>(&k_centralNonEmpty) = v;  // only stale-true -> false by a worker; never read as true again
 #endif
 }
+static inline uint64_t k_swm_plain() { return *reinterpret_cast<uint64_t*>(&k_stealRingsWithWork); }
 static inline void k_enqueue_central(uint32_t n) {  // enqueueToCentralQueue / enqueue_bulk + hint store
   K_STEP(g_central += n);
   k_hint_store(true);
 }
 
 // task(): ring tasks staged by the cascade path are wrapped: cascadeWake(target) runs before the user work
+// out of line (spec: no_inline) = one step without preemption
+VF_NOINLINE static void k_cascadeWake(int32_t target) {
+  WS->cascadeWake(target);   // REAL
+}
 static inline void k_run(int32_t cascadeTarget, bool& last) {
+#if VF_LIVE_RING
   if (cascadeTarget >= 0) {
-    WS->cascadeWake(cascadeTarget);   // REAL
+    k_cascadeWake(cascadeTarget);
   }
+#else
+  (void)cascadeTarget;
+#endif
   k_task_started(last);
 }
 
@@ -266,6 +275,107 @@ static inline void k_markIdle(bool& isWorking) {
   }
 }
 
+#ifndef VF_ATOMIC_PROBE
+#define VF_ATOMIC_PROBE 1
+#endif
+#if VF_ATOMIC_PROBE
+// Coarse work finding (default): ONE atomic ghost step performs the whole probe sequence of
+// tryFindAndExecuteWork (+ the deferred steal-ring check of the loop): it looks exactly where the real
+// code looks, in the same order, and takes the first task it finds.  Races *inside* a probe sequence
+// (e.g. the centralQueueNonEmpty_ clear-vs-set race documented in thread_pool.h:466) are therefore
+// outside these instances; the park/wake protocol around it is fine-grained.
+static inline bool k_probe(int myRing, int myStealIdx, bool& preferRing, bool checkQueue, int32_t& tgt) {
+  bool found = false;
+  int32_t t = -1;
+  bool pr = preferRing;
+  vf_sched_point();
+  {
+    VfAtomic a_;
+    bool hint = *reinterpret_cast<bool*>(&k_centralNonEmpty);
+    uint32_t r = g_ring[myRing], c = g_central, st = g_steal[myStealIdx];
+    // order: preferRing: ring, central, steal, other steal rings; else: central, ring (then, in the loop, own steal ring)
+    bool useCentral = checkQueue && hint && c > 0 && !(pr && r > 0);
+    bool useRing = r > 0 && !useCentral;
+    bool useSteal = !useCentral && !useRing && st > 0;
+    int other = -1;
+#if VF_NUMSTEAL_GT1
+    if (!useCentral && !useRing && !useSteal && pr) {
+      for (int s = 0; s < kNumSteal; ++s) {
+        if (s != myStealIdx && other < 0 && g_steal[s] > 0 && ((k_swm_plain() >> s) & 1)) other = s;
+      }
+    }
+#endif
+    if (checkQueue && hint && c == 0 && !(pr && r > 0)) {
+      *reinterpret_cast<bool*>(&k_centralNonEmpty) = false;   // failed try_dequeue clears the hint
+    }
+    g_central -= (uint32_t)useCentral;
+    g_ring[myRing] -= (uint32_t)useRing;
+    t = useRing ? g_ring_target[myRing] : -1;
+    g_ring_target[myRing] = useRing ? -1 : g_ring_target[myRing];
+    g_steal[myStealIdx] -= (uint32_t)useSteal;
+    if (other >= 0) g_steal[other]--;
+    pr = useCentral ? false : (useRing ? true : pr);
+    found = useCentral || useRing || useSteal || other >= 0;
+  }
+  preferRing = pr;
+  tgt = t;
+  return found;
+}
+
+static inline void k_worker_loop(int32_t ringIndex) {
+  const bool kUseWakeSleep = VF_WAKEMODE != 0;
+  bool preferRing = g_prefer0[ringIndex];
+  auto* ws = WS;
+  uint32_t epoch = g_start_parking[ringIndex] ? g_epoch0[ringIndex] : ws->waiterFor(ringIndex).current();  // REAL
+  int myStealIdx = ringIndex / VF_SS;
+  bool isWorking = false;
+  bool last = false;
+  bool resumeAtPark = g_start_parking[ringIndex];
+  // one iteration = `while (data.running())` + the probe sequence of one spin phase (spin limit reached
+  // after one fruitless sequence) + the parking part, transcribed statement by statement
+  for (;;) {
+    if (!resumeAtPark) {
+      if (!k_running(ringIndex)) break;
+      int32_t tgt = -1;
+      if (k_probe(ringIndex, myStealIdx, preferRing, true, tgt)) {
+        k_markWorkDone(isWorking);
+        k_run(tgt, last);
+        if (last) { last = false; k_teardown(); }
+        k_workRemaining.add(-1);
+        continue;
+      }
+      k_markIdle(isWorking);
+#if VF_SPINWINDOW
+      { VfAtomic a; vf_assume(!g_inflight); }
+#endif
+      if (kUseWakeSleep) {
+        ws->enterSleep(ringIndex);  // REAL
+      }
+    }
+    resumeAtPark = false;
+    if (kUseWakeSleep) {
+      if (!k_running(ringIndex)) {
+        ws->exitSleep(ringIndex);  // REAL
+        break;
+      }
+    }
+    const uint32_t preWaitEpoch = epoch;
+    epoch = k_waitOnThread(ringIndex, epoch);
+    if (kUseWakeSleep) {
+      ws->exitSleep(ringIndex);  // REAL
+    }
+#if VF_LIVE_CENTRAL
+    if (epoch == preWaitEpoch) {
+      vf_sched_point();
+      VfAtomic a;
+      *reinterpret_cast<bool*>(&k_centralNonEmpty) |= (g_central != 0);   // size_approx() != 0 -> hint = true
+    }
+#endif
+  }
+  k_markIdle(isWorking);
+  { VfAtomic a; g_exited++; }
+}
+#else
 // tryFindAndExecuteWork (thread_pool.h:752).  The two branches of the original
 //   preferRing:  ring, central (hint-gated), own steal ring, cross steal rings
 //   otherwise:   central (hint-gated), ring
@@ -414,6 +524,8 @@ static inline void k_worker_loop(int32_t ringIndex) {
   k_markIdle(isWorking);
   { VfAtomic a; g_exited++; }
 }
+
+#endif  // VF_ATOMIC_PROBE
 
 static void worker0(void*) { k_worker_loop(0); }
 #if VF_N >= 2
@@ -598,7 +710,8 @@ VF_NOINLINE static void k_build() {
 
 // harness teardown (NOT code under test): stop every worker and wake every waiter of every group
 // unconditionally, so that the end of a scenario never depends on the wake logic under test
-static inline void k_teardown() {
+#ifndef K_NO_TEARDOWN
+VF_NOINLINE static void k_teardown() {
   for (int i = 0; i < VF_N; ++i) {
     k_stop(i);
   }
@@ -606,3 +719,4 @@ static inline void k_teardown() {
     WS->waiterFor(g * VF_G).bumpAndWakeAll();
   }
 }
+#endif
